@@ -463,6 +463,180 @@ def comprehension_to_loop(text: str) -> str:
     return ast.unparse(ast.fix_missing_locations(tree)) + "\n"
 
 
+_SIG_CACHE = {}
+
+
+def _package_signatures(root=None):
+    """simple name -> parameter names (without self) for functions / methods / classes defined exactly once in the package"""
+    root = root or os.environ.get("VERIF_ROOT", "/repo")
+    if root in _SIG_CACHE:
+        return _SIG_CACHE[root]
+    seen = {}
+    d = os.path.join(root, "src", "gbigsmiles")
+    for fn in sorted(os.listdir(d)):
+        if not fn.endswith(".py"):
+            continue
+        try:
+            tree = ast.parse(open(os.path.join(d, fn)).read())
+        except SyntaxError:
+            continue
+        for node in ast.walk(tree):
+            if isinstance(node, ast.ClassDef):
+                init = [x for x in node.body if isinstance(x, ast.FunctionDef) and x.name == "__init__"]
+                if init:
+                    a = init[0].args
+                    if not (a.vararg or a.kwarg or a.posonlyargs):
+                        seen.setdefault(node.name, []).append([x.arg for x in a.args][1:])
+                    else:
+                        seen.setdefault(node.name, []).append(None)
+                else:
+                    seen.setdefault(node.name, []).append(None)
+                for x in node.body:
+                    if isinstance(x, ast.FunctionDef) and not x.name.startswith("__"):
+                        a = x.args
+                        is_static = any(isinstance(dd, ast.Name) and dd.id == "staticmethod" for dd in x.decorator_list)
+                        is_prop = any((isinstance(dd, ast.Name) and dd.id == "property") or (isinstance(dd, ast.Attribute) and dd.attr == "setter") for dd in x.decorator_list)
+                        if is_prop or a.vararg or a.kwarg or a.posonlyargs:
+                            seen.setdefault(x.name, []).append(None)
+                        else:
+                            seen.setdefault(x.name, []).append([y.arg for y in a.args][0 if is_static else 1:])
+        for x in tree.body:
+            if isinstance(x, ast.FunctionDef):
+                a = x.args
+                seen.setdefault(x.name, []).append(None if (a.vararg or a.kwarg or a.posonlyargs) else [y.arg for y in a.args])
+        # nested functions: never rewritten (their names may repeat)
+        for node in ast.walk(tree):
+            if isinstance(node, ast.FunctionDef):
+                for sub in ast.walk(node):
+                    if isinstance(sub, ast.FunctionDef) and sub is not node:
+                        seen.setdefault(sub.name, []).append(None)
+    out = {k: v[0] for k, v in seen.items() if len(v) == 1 and v[0] is not None}
+    _SIG_CACHE[root] = out
+    return out
+
+
+_EXTERNAL_METHOD_NAMES = {"append", "index", "copy", "get", "pop", "add", "update", "find", "count", "strip", "split", "join", "choice", "sum", "generate"}
+
+
+def args_to_keywords(text: str) -> str:
+    """Behaviour-preserving: calls of package functions / methods / constructors whose simple name is defined exactly once
+    in the package pass their arguments by keyword instead of by position."""
+    sig = _package_signatures()
+    tree = ast.parse(text)
+    for c in ast.walk(tree):
+        if not isinstance(c, ast.Call) or not c.args:
+            continue
+        f = c.func
+        name = f.id if isinstance(f, ast.Name) else (f.attr if isinstance(f, ast.Attribute) else None)
+        if name is None or name not in sig or name in _EXTERNAL_METHOD_NAMES:
+            continue
+        if isinstance(f, ast.Attribute) and isinstance(f.value, ast.Call) and isinstance(f.value.func, ast.Name) and f.value.func.id == "super":
+            continue
+        params = sig[name]
+        if any(isinstance(a, ast.Starred) for a in c.args) or any(k.arg is None for k in c.keywords) or len(c.args) > len(params):
+            continue
+        given = {k.arg for k in c.keywords}
+        names = params[: len(c.args)]
+        if set(names) & given:
+            continue
+        c.keywords = [ast.keyword(arg=n, value=a) for n, a in zip(names, c.args)] + c.keywords
+        c.args = []
+    return ast.unparse(ast.fix_missing_locations(tree)) + "\n"
+
+
+def npsum_to_method(text: str) -> str:
+    """Behaviour-preserving: np.sum(x) written x.sum() when x is a plain name or attribute chain (NumPy arrays in this package)."""
+    tree = ast.parse(text)
+
+    class T(ast.NodeTransformer):
+        def visit_Call(self, c):
+            self.generic_visit(c)
+            f = c.func
+            if isinstance(f, ast.Attribute) and f.attr == "sum" and isinstance(f.value, ast.Name) and f.value.id == "np" and len(c.args) == 1 and not c.keywords and isinstance(c.args[0], (ast.Name, ast.Attribute)):
+                return ast.copy_location(ast.Call(func=ast.Attribute(value=c.args[0], attr="sum", ctx=ast.Load()), args=[], keywords=[]), c)
+            return c
+
+    return ast.unparse(ast.fix_missing_locations(T().visit(tree))) + "\n"
+
+
+def reword_messages(text: str) -> str:
+    """Behaviour-preserving (exception types kept): every message of a raise / warn is replaced by a constant text."""
+    tree = ast.parse(text)
+    for n in ast.walk(tree):
+        call = None
+        if isinstance(n, ast.Raise) and isinstance(n.exc, ast.Call):
+            call = n.exc
+        elif isinstance(n, ast.Expr) and isinstance(n.value, ast.Call) and isinstance(n.value.func, ast.Name) and n.value.func.id == "warn":
+            call = n.value
+        if call is not None and call.args and isinstance(call.args[0], (ast.JoinedStr, ast.Constant, ast.BinOp)):
+            call.args[0] = ast.copy_location(ast.Constant(value="invalid input"), call.args[0])
+    return ast.unparse(ast.fix_missing_locations(tree)) + "\n"
+
+
+def alias_self_attributes(text: str) -> str:
+    """Behaviour-preserving: inside every method, an attribute `self.X` that the method reads at least twice and that is
+    never stored (in this module: not by this method, its nested functions, nor anywhere outside constructors) is read once
+    into a local `X_l` at the top of the method and the local is used instead (only plain data attributes, no calls in between
+    can re-bind them because nothing outside constructors stores them)."""
+    tree = ast.parse(text)
+    stored_outside_ctor = set()
+    props = set()
+    for cls in [n for n in ast.walk(tree) if isinstance(n, ast.ClassDef)]:
+        for m in cls.body:
+            if isinstance(m, ast.FunctionDef):
+                if any((isinstance(d, ast.Name) and d.id in ("property", "cached_property")) or isinstance(d, ast.Attribute) for d in m.decorator_list):
+                    props.add(m.name)
+                else:
+                    props.add(m.name)  # methods are not data either
+                if m.name == "__init__":
+                    continue
+                for x in ast.walk(m):
+                    if isinstance(x, ast.Attribute) and isinstance(x.ctx, (ast.Store, ast.Del)):
+                        stored_outside_ctor.add(x.attr)
+                    if isinstance(x, ast.AugAssign) and isinstance(x.target, ast.Attribute):
+                        stored_outside_ctor.add(x.target.attr)
+    for x in ast.walk(tree):
+        if isinstance(x, ast.FunctionDef) and x.name != "__init__":
+            for y in ast.walk(x):
+                if isinstance(y, ast.Attribute) and isinstance(y.ctx, (ast.Store, ast.Del)):
+                    stored_outside_ctor.add(y.attr)
+    # attributes of this package that are (re-)bound after construction anywhere (kept conservative, by name)
+    REBOUND = {"bond_descriptors", "graph", "_mol", "weight", "transitions", "atom_bonding_to", "node_idx", "mixture", "_elements", "_raw_text",
+               "left_terminal", "right_terminal", "_relative_mass", "_absolute_mass", "_system_mass", "rng", "node_counter", "node_offset_list",
+               "_mw_draw_map", "_stochastic_vector", "fully_generated", "_log_prob", "_active_element", "_open_atoms", "_handled_atoms", "_element_weights"}
+    for cls in [n for n in ast.walk(tree) if isinstance(n, ast.ClassDef)]:
+        for m in cls.body:
+            if not isinstance(m, ast.FunctionDef) or m.name == "__init__" or not m.args.args or m.args.args[0].arg != "self":
+                continue
+            if any(isinstance(d, ast.Attribute) and d.attr == "setter" for d in m.decorator_list):
+                continue
+            loads = {}
+            for x in ast.walk(m):
+                if isinstance(x, ast.Attribute) and isinstance(x.value, ast.Name) and x.value.id == "self" and isinstance(x.ctx, ast.Load):
+                    loads[x.attr] = loads.get(x.attr, 0) + 1
+            names_used = {x.id for x in ast.walk(m) if isinstance(x, ast.Name)} | {a.arg for a in ast.walk(m) if isinstance(a, ast.arg)}
+            cand = [a for a, k in loads.items() if k >= 2 and a not in stored_outside_ctor and a not in props and a not in REBOUND and (a + "_l") not in names_used]
+            # not a method call receiver name: self.a(...) is a call of a method
+            called = {x.func.attr for x in ast.walk(m) if isinstance(x, ast.Call) and isinstance(x.func, ast.Attribute) and isinstance(x.func.value, ast.Name) and x.func.value.id == "self"}
+            cand = [a for a in cand if a not in called]
+            if not cand:
+                continue
+
+            class R(ast.NodeTransformer):
+                def visit_Attribute(self, n):
+                    self.generic_visit(n)
+                    if isinstance(n.value, ast.Name) and n.value.id == "self" and isinstance(n.ctx, ast.Load) and n.attr in cand:
+                        return ast.copy_location(ast.Name(id=n.attr + "_l", ctx=ast.Load()), n)
+                    return n
+
+            body = m.body
+            start = 1 if (body and isinstance(body[0], ast.Expr) and isinstance(body[0].value, ast.Constant) and isinstance(body[0].value.value, str)) else 0
+            new_body = [R().visit(st) for st in body[start:]]
+            pre = [ast.Assign(targets=[ast.Name(id=a + "_l", ctx=ast.Store())], value=ast.Attribute(value=ast.Name(id="self", ctx=ast.Load()), attr=a, ctx=ast.Load())) for a in sorted(cand)]
+            m.body = body[:start] + pre + new_body
+    return ast.unparse(ast.fix_missing_locations(tree)) + "\n"
+
+
 def _judge(args):
     vid, kind, prop, rules, src_root, edits_spec = args
     from sa.check import run_property
@@ -492,6 +666,14 @@ def _judge(args):
             edits.append((file, loops_to_all))
         elif special == "comploop":
             edits.append((file, comprehension_to_loop))
+        elif special == "argkw":
+            edits.append((file, args_to_keywords))
+        elif special == "npsum":
+            edits.append((file, npsum_to_method))
+        elif special == "reword":
+            edits.append((file, reword_messages))
+        elif special == "aliasattr":
+            edits.append((file, alias_self_attributes))
         elif special == "patch":
             patch_file = os.path.join(HERE, "variant_patches", new)
         else:
@@ -593,7 +775,7 @@ def run(prop: str, seed: int, root: str, coverage_out: dict, jobs: int = 16, onl
     rnd.shuffle(vs)
     tasks = []
     for v in vs:
-        special = {"<unparse>": "unparse", "<rename-locals>": "rename", "<flip-comparisons>": "flip", "<invert-ifelse>": "invert", "<hoist-conditions>": "hoist", "<extract-helpers>": "extract", "<expand-augassign>": "augexp", "<len-as-condition>": "lencond", "<fstring-to-concat>": "fconcat", "<loops-to-all>": "toall", "<comprehension-to-loop>": "comploop", "<patch>": "patch"}.get(v.old)
+        special = {"<unparse>": "unparse", "<rename-locals>": "rename", "<flip-comparisons>": "flip", "<invert-ifelse>": "invert", "<hoist-conditions>": "hoist", "<extract-helpers>": "extract", "<expand-augassign>": "augexp", "<len-as-condition>": "lencond", "<fstring-to-concat>": "fconcat", "<loops-to-all>": "toall", "<comprehension-to-loop>": "comploop", "<patch>": "patch", "<args-to-keywords>": "argkw", "<npsum-to-method>": "npsum", "<reword-messages>": "reword", "<alias-self-attributes>": "aliasattr"}.get(v.old)
         files = v.file.split(",") if special else [v.file]
         tasks.append((v.vid, v.kind, prop, v.rules, root, [(f, v.old, v.new, v.count, special) for f in files] + [(f2, o2, n2, 1, None) for f2, o2, n2 in v.extra]))
     results = []
